@@ -7,6 +7,16 @@ ALL = ["C%02d" % i for i in range(1, 21)]
 
 # property -> (category, technique, text, note, design_ref)
 CHECKS = {
+ "C03": ("exploration",
+   "bounded exhaustive enumeration of all batches (ordered selections of a 6-row query pool) x memory layouts x calling forms for a registry of every predictor type, against the model applied to each row alone",
+   "28 predictor entries (k-means, GMM, OLS, isotonic, Tweedie, elastic net single / multi-task, PLS x3, logistic binary / multinomial, six SVM variants, decision tree, two naive Bayes, FTRL, PCA, FastICA, MultiTargetModel, MultiClassModel incl. a twin member for exact ties, Platt over two inner models) x 3 fitted instances x every ordered selection of 0..3 (quick) / 0..6 (thorough: all 1957 arrangements) pool rows incl. the empty batch x {standard, column-major, every-second-row view, reversed rows} x nine calling forms (owned / borrowed arrays, views, owned / borrowed datasets, predict_inplace into fresh and into dirty targets). Oracle: row i of every batch == the single-row prediction (labels exact, floats within the worst-case gap of two summation orders), records handed back bitwise, wrong-length targets panic with the documented message, composite rules for MultiTarget / MultiClass / Platt.",
+   "No f32 predictors in the registry; Platt and FastICA admit owned arrays only (their view forms do not exist). Fitted instances come from fixed deterministic data.",
+   "DESIGN.md 4/C03"),
+ "C15": ("model_checking",
+   "explicit-state exploration of batch histories: every composition of a dataset into ordered batches (prefix-sharing state graph), every batch sequence for mini-batch k-means and FTRL, each real fit_with call stepped in lock-step with a plain-f64 reference recurrence",
+   "Naive Bayes (Gaussian, multinomial): every multiset of <=5/6 labelled rows over a 4-value feature alphabet and 3 classes, 1/3 row orders, EVERY composition into ordered non-empty batches (class-incomplete and single-row batches included), three smoothing values; state = sufficient statistics read through the serde image, bit-identical states merged; incremental vs single fit vs textbook estimates, predictions == arg-max of the reference posterior outside a 1e-6 margin. Mini-batch k-means: every sequence of <=3/4 batches from 4 pools x 99 initialisation / tolerance configurations against the running-mean recurrence with cumulative counts, Ok iff shift < tolerance. FTRL: every sequence of <=3/4 batches x 162 hyper-parameter / initial-z configurations against the per-coordinate FTRL-proximal recurrence; weights exactly 0 wherever |z| <= l1 (boundary states reached through a scripted RNG).",
+   "Bounded: n <= 6 rows, histories <= 4 batches. Gaussian NB with var_smoothing 1e-3 is measured, not judged, for batch == incremental equality (design decision: the smoothing term is batch-local by construction).",
+   "DESIGN.md 3.2, 4/C15"),
  "C09": ("model_checking",
    "bounded exhaustive enumeration of datasets x every data-derived initialisation x iteration budgets, the real fit stepped in lock-step with a reference Lloyd (m_k-means) state graph whose ties branch; exhaustive restart / seed / budget grids",
    "Every 1-D multiset of <=5/8 points of {0..4} and every subset of <=4/6 points of the 3x3 lattice (affine images, f32/f64, L1/L2), k <= 3/4, every k-sub-multiset of the data (plus off-data starts) as Precomputed initialisation, every budget m = 1..6/12: the returned centroids must be a state the reference m_k-means step reaches after m updates (tie resolutions branch in the reference state graph; states/transitions reported), cost never increases with the budget (L2); Random / k-means++ / k-means|| x seeds x caps x restarts: inertia never rises with more restarts from the same seed; every fitted model: shape, finiteness, bounding box, predict / transform against an independent arg-min scan with tie sets on training, lattice, half-lattice and far queries; reported inertia and cluster_count must describe the returned centroids.",
